@@ -64,7 +64,39 @@ def psd_append_by_phase(ctx, nph=2, ncls=2, order=(0, 1)):
                       ctx.eq(m.PSDXalpha[p][ncls + i, 0], ctx.uf("xa_" + str(names[p]), m.pData.temperature[0], want_g[i], rng=(0.01, 0.2))))
 
 
+def aspect_callback_by_phase(ctx, nph=2, ncls=2, calc=(True, True)):
+    """real _setupAspectRatio: a phase whose aspect ratio is computed from the strain energy interpolates ITS OWN table,
+    wherever it is listed (the per-phase callback must not bind the loop variable late)"""
+    m, info = mk_kwn(ctx, nph, 1, ncls, hist=1)
+    tables = []
+    for p in range(nph):
+        pp = m.precipitateParameters[p]
+        pp._gamma = 0.1
+        pp.calculateAspectRatio = bool(calc[p])
+        tab = ctx.reals("eqAR_%s" % m.phases[p], ncls + 1, (1.0, 3.0))
+        for i in range(ncls + 1):
+            ctx.assume(tab[i] >= 1)
+        tables.append(tab)
+        pp.strainEnergy.eqAR_bySearch = (lambda t: (lambda Rsph, gamma, shp: t))(tab)     # the search itself is C16's subject
+        if calc[p]:
+            pp.shapeFactor.setPrecipitateShape("needle", 1)
+    m._setupAspectRatio()
+    for p in range(nph):
+        b = m.PBM[p].PSDbounds
+        if calc[p]:
+            for i in range(ncls + 1):
+                ctx.prove("stored table of the phase is the one computed for it", ctx.eq(m.eqAspectRatio[p][i], tables[p][i]))
+                ctx.prove("aspect ratio of the phase at its own class boundary comes from its own table",
+                          ctx.eq(np.atleast_1d(m.precipitateParameters[p].shapeFactor.aspectRatio(b[i]))[0], tables[p][i]))
+        else:
+            ctx.prove("phase with a fixed aspect ratio keeps it", ctx.all([ctx.eq(m.eqAspectRatio[p][i], 1.0) for i in range(ncls + 1)]))
+
+
 EXTRA = [
+    Harness("C11.aspect_callback_by_phase", aspect_callback_by_phase, functions=[PrecipitateModel._setupAspectRatio, PrecipitateModel._interpolateAspectRatio],
+            assumptions=["strainEnergy.eqAR_bySearch stubbed: returns a symbolic table per phase (>= 1)"], bounds={"phases": "nph", "classes": "ncls"},
+            params={"quick": [{"nph": 2, "ncls": 2, "calc": [True, True]}, {"nph": 2, "ncls": 2, "calc": [True, False]}],
+                    "thorough": [{"nph": 3, "ncls": 2, "calc": [True, False, True]}, {"nph": 3, "ncls": 3, "calc": [True, True, True]}]}),
     Harness("C11.psd_append_by_phase", psd_append_by_phase, functions=[PrecipitateModel._updateParticleSizeDistribution],
             assumptions=["binary system, two precipitate phases with different interfacial energies; last class of every phase populated so classes are appended; no re-mesh"],
             stubs=["therm.getInterfacialComposition: uninterpreted function of (phase name, T, Gibbs-Thomson energy)", "_growthRate: zeros (not the subject)"],
